@@ -88,6 +88,26 @@ def build(entry, ch, acc, max_faults=4, shapes=None, flavor='plain', avoid='~*:^
     nf = ch.choice([0, 1, 1, 2, 3, max_faults])
     exps = []
     kinds = kinds or faults.KINDS
+    if hostile_values and ch.chance(.4):
+        # envelope values are echoed too (ISA06/08, GS02/03, ST02 -> ISA, GS, AK2): characters that are delimiters of the
+        # acknowledgement but plain data under the source's delimiters
+        cs_ = [x for x in ':*~^' if x not in avoid] or ['Z']
+        for s_ in doc.segs:
+            c_ = cs_[ch.integer(0, len(cs_) - 1)]
+            if s_.id == 'ISA' and ch.chance(.5):
+                k_ = ch.choice([5, 7])
+                s_.vals[k_] = [('S' + c_ + 'NDR').ljust(15)]
+            elif s_.id == 'GS' and ch.chance(.6):
+                k_ = ch.choice([1, 2])
+                s_.vals[k_] = ['AA' + c_ + 'A']
+            elif s_.id == 'ST' and ch.chance(.5):
+                v_ = s_.vals[1][0][:3] + c_ + 'A'
+                s_.vals[1] = [v_]
+                for t_ in doc.segs[doc.segs.index(s_):]:
+                    if t_.id == 'SE':
+                        t_.vals[1] = [v_]
+                        break
+        exps.append({'kind': 'hostile-envelope-values', 'hostile': True})
     if twin_sets and ch.chance(twin_sets) and set_bounds(doc):
         # sibling sets of identical structure with different defects at the same place
         nf = 0
